@@ -52,6 +52,7 @@ class blockiterator(object):
                 self.bitcnt = 0
                 yield lastb
         else:
+            if bitlen==0: return
             assert nc==bitlen
             self.bitcnt = start+nc
             yield Pi
